@@ -277,25 +277,40 @@ class _Gen:
 def _recursive_helper(draw, feats: frozenset[str], callable_kinds: list[str], k: int) -> dict[str, Any]:
     """``hK(a0, a1)`` with fuel a1::
 
-        <0..2 statements>; vP = <expr>            locals defined before the recursive call ...
+        <0..2 statements>
         if a1 <= 0:
             return <expr>
+        vP = <expr>                               a local defined before the recursive call (not in the base frame) ...
         vR = hK(<expr>, a1 - 1)
         <0..2 statements>
         return (vP op vR) op <expr>               ... and used after it
+
+    With the feature "recursion-joined" vP is instead assigned in both arms of an if/else, i.e. on different lines in
+    different frames (not part of the default fragment: HEAD resolves a use to a definition of an inner frame).
     """
     g = _Gen(draw, feats, callable_kinds, "int")
     body = g.block(g.pick(3), 0)
-    if "joined-if" in feats and g.pick(2):
-        body.append(g.joined_if(g.cond(), 0))   # the pre-call local is defined on different lines in different frames
+    # mostly keep the earlier locals out of the base value and of the argument, so that only the use *after* the
+    # recursive call needs the definition of vP
+    visible = list(g.ints)
+    if g.pick(4):
+        g.ints = ["a0", "a1"]
+    base = g.expr(1)
+    arg = g.expr(1)
+    g.ints = visible
+    body.append(["if", ["cmp", "<=", ["v", "a1"], ["c", 0]], [["ret", base]], []])
+    if "recursion-joined" in feats and g.pick(2):
+        body.append(g.joined_if(g.cond(), 0))
         pre = body[-1][2][-1][1]
     else:
         e = g.expr(2)
-        pre = g.target()
+        pre = f"v{g.n_int}"  # always a fresh name: defined on exactly this line
+        g.n_int += 1
+        g.ints.append(pre)
         body.append(["set", pre, e])
-    body.append(["if", ["cmp", "<=", ["v", "a1"], ["c", 0]], [["ret", g.expr(1)]], []])
-    arg = g.expr(1)
-    rec = g.target()
+    rec = f"v{g.n_int}"
+    g.n_int += 1
+    g.ints.append(rec)
     body.append(["set", rec, ["self", k, arg]])
     body += g.block(g.pick(3), 0)
     ret = ["b", OPS[g.pick(3)], ["b", OPS[g.pick(3)], ["v", pre], ["v", rec]], g.expr(1)]
@@ -306,7 +321,7 @@ def _recursive_helper(draw, feats: frozenset[str], callable_kinds: list[str], k:
 def programs(draw, feats: frozenset[str]) -> dict[str, Any]:
     helper_kinds: list[str] = []
     helpers = []
-    n_helpers = draw(st.integers(0, 2)) if "call" in feats else 0
+    n_helpers = draw(st.integers(0, 3)) if "call" in feats else 0
     for _ in range(n_helpers):
         kinds = ["int", "int"]
         if "obj-param" in feats and "attr" in feats:
@@ -314,7 +329,7 @@ def programs(draw, feats: frozenset[str]) -> dict[str, Any]:
         if "list-param" in feats and "list" in feats:
             kinds.append("lst")
         if "recursion" in feats:
-            kinds.append("rec")
+            kinds += ["rec", "rec"]
         kind = kinds[draw(st.integers(0, len(kinds) - 1))]
         k = len(helpers)
         if kind == "rec":
@@ -338,8 +353,14 @@ def programs(draw, feats: frozenset[str]) -> dict[str, Any]:
     g = _Gen(draw, feats, helper_kinds)
     body = g.block(draw(st.integers(3, 10)), 0)
     ret = g.ret_expr()
-    if helper_kinds and "branchy-helper" in feats and g.pick(2):
-        ret = ["b", OPS[g.pick(3)], g.call(1), ret]  # a call in the last top-level block of the caller
+    if helper_kinds and "branchy-helper" in feats and g.pick(4):
+        # a call in the last top-level block of the caller whose result reaches the criterion
+        recs = [i for i, kind in enumerate(helper_kinds) if kind == "rec"]
+        if recs and g.pick(2):
+            call = ["rcall", recs[g.pick(len(recs))], g.expr(1), g.expr(1)]
+        else:
+            call = g.call(1)
+        ret = ["b", OPS[g.pick(2)], call, ret]
     return {
         "program": {"globals": [draw(st.integers(-2, 6)), draw(st.integers(-2, 6))], "helpers": helpers,
                     "main": {"body": body, "ret": ret}, "args": [draw(st.integers(-2, 5)), draw(st.integers(-2, 5))]},
